@@ -10,7 +10,7 @@ constructs become `opaque` values / `unknown` effects which the rules treat as
 """
 import itertools
 
-from .facts import show, AnalysisBroken, strip_copies
+from .facts import show, AnalysisBroken, strip_copies, strip_casts
 
 INT_MAX = 2147483647
 INT_MIN = -2147483648
@@ -294,7 +294,12 @@ class Symex:
         ctx = {'this': this_lp, 'fn': f, 'depth': depth, 'want_lvalue': want_lvalue}
         if f.get('ctor_inits'):
             for ci in f['ctor_inits']:
-                if ci.get('written') and ci.get('field') and ci['field'] != '<base>':
+                scalar_default = (not ci.get('written')) and ci.get('init') is not None and \
+                    (ci['init'].get('cty') or '').replace('const ', '') in ('bool', 'int', 'unsigned int', 'long', 'unsigned long', 'short', 'unsigned short', 'char',
+                                                                           'signed char', 'unsigned char', 'long long', 'unsigned long long') and \
+                    ci['init'].get('k') in ('bool', 'int', 'char', 'un', 'cast', 'paren', 'bin')
+                # (a default member initialiser of a scalar member is what the constructor leaves in it when it does not mention the member)
+                if (ci.get('written') or scalar_default) and ci.get('field') and ci['field'] != '<base>':
                     outs = self.eval(ci['init'], p, ctx)
                     # constructor initialisers do not fork in libtheo; take all
                     np = []
@@ -1440,6 +1445,10 @@ class Symex:
                     for q2, v in self.eval(fe, q, ctx):
                         nxt.append((q2, l + [v]))
                 cur2 = nxt
+            scalar = (e.get('cty') or '').replace('const ', '') in ('int', 'unsigned int', 'long', 'unsigned long', 'long long', 'unsigned long long', 'short', 'unsigned short',
+                                                                        'char', 'signed char', 'unsigned char', 'bool')
+            if scalar and all(len(l) == 1 for q, l in cur2):
+                return [(q, l[0]) for q, l in cur2]          # T{v} of a scalar type is v
             return [(q, Val(('list', tuple(v.term for v in l)), None)) for q, l in cur2]
         return [(q, Val(('struct', e.get('rec'), tuple(sorted((n, v.term) for n, v in d.items()))), None, (), d))
                 for q, d in cur]
@@ -1740,6 +1749,26 @@ class Symex:
                     vs.lost = True
                     q2.effects.append(('vecop', olp, 'resize', (args[0], fill), q2.loopctx, loc))
                     res.append((q2, Val(('void',))))
+                continue
+            if short == 'insert' and len(e.get('args', [])) == 3:
+                # v.insert(v.end(), n, x): n copies of x appended (the fill form; the iterator-range form has iterator arguments)
+                handled = False
+                for q2, args in self.eval_args(e['args'], q, ctx):
+                    p0 = args[0].term
+                    a1ty = (strip_casts(e['args'][1]).get('cty') or '')
+                    if isinstance(p0, tuple) and p0[0] == 'vit' and p0[1] == olp and p0[2] == 'end' and p0[3] == C(0) and 'iterator' not in a1ty and '*' not in a1ty:
+                        vs = q2.vecstate(olp)
+                        vs.ops.append(('append_n', args[1], args[2], q2.loopctx))
+                        vs.lost = True
+                        q2.effects.append(('vecop', olp, 'push', args[2], q2.loopctx + (('fill_n', show(e['args'][1])),), loc))
+                        res.append((q2, Val(('vit', olp, 'unknown', C(0)))))
+                        handled = True
+                    else:
+                        vs = q2.vecstate(olp)
+                        vs.ops.append(('unknown', short, q2.loopctx))
+                        vs.lost = True
+                        q2.effects.append(('vecop', olp, 'unknown:' + short, None, q2.loopctx, loc))
+                        res.append((q2, opaque(e)))
                 continue
             if short == 'erase':
                 for q2, args in self.eval_args(e['args'], q, ctx):
